@@ -170,6 +170,15 @@ func condFacts(cond ast.Expr, positive bool) []string {
 				}
 				return nil
 			}
+			// len(a) ==/!= 0: non-emptiness
+			if la := lenArg(x.X); la != "" {
+				if bl, ok := unparen(x.Y).(*ast.BasicLit); ok && bl.Value == "0" {
+					if !eq {
+						return []string{"nonempty:" + la}
+					}
+					return []string{"eq:0|len(" + la + ")"}
+				}
+			}
 			// len(a) == 0 etc. and general equalities
 			if eq {
 				p := []string{canon(x.X), canon(x.Y)}
@@ -177,6 +186,19 @@ func condFacts(cond ast.Expr, positive bool) []string {
 				return []string{"eq:" + p[0] + "|" + p[1]}
 			}
 			return nil
+		}
+	}
+	// len(a) > 0, len(a) >= 1, 0 < len(a)
+	if be, ok := cond.(*ast.BinaryExpr); ok {
+		if la := lenArg(be.X); la != "" {
+			if bl, ok := unparen(be.Y).(*ast.BasicLit); ok {
+				switch {
+				case positive && (be.Op == token.GTR && bl.Value == "0" || be.Op == token.GEQ && bl.Value == "1"):
+					return []string{"nonempty:" + la, "t:" + canon(cond)}
+				case !positive && (be.Op == token.LSS && bl.Value == "1" || be.Op == token.LEQ && bl.Value == "0"):
+					return []string{"nonempty:" + la, "f:" + canon(cond)}
+				}
+			}
 		}
 	}
 	if positive {
